@@ -16,6 +16,7 @@ def special_grammars(ctx):
         gs.append(dict(id=gid, text=text, text_noast=text_noast or text))
     n = 300 if ctx.tier == "quick" else 3000
     add("many%d" % n, HDR + "S <- R0 !.\n" + "".join("R%d <- 'a' R%d? { p.N++ }\n" % (i, i + 1) for i in range(n)) + "R%d <- <'b'> { p.N++ }\n" % n)
+    add("mix200", HDR + "S <- R0 !.\n" + "".join("R%d <- 'a' R%d? %s\n" % (i, i + 1, "{ p.N++ }" if i % 5 < 3 else "") for i in range(200)) + "R200 <- <'b'> Undef1? Undef2?\n")
     add("imports", "package parser\n\nimport \"fmt\"\nimport z \"os\"\nimport (\n\tb \"bytes\"\n\t\"strings\"\n\t\"math\"\n)\nimport \"io\"\n\ntype Parser Peg {\n T []string\n N int\n}\n"
         "S <- <'a'> { _ = fmt.Sprint(z.Args, b.MinRead, strings.ToLower(text), math.Pi, io.EOF) } !.\n")
     add("header", "# a comment with */ and \"quotes\" and a tab\there\n// second style {braces}\n\n\n# third\n" + HDR + "S <- 'a' # trailing comment\n   'b' // another\n !.\n")
@@ -55,9 +56,32 @@ def check(ctx):
     bd = C.build_dir()
     gs = special_grammars(ctx)
     allopts = ["d", "i", "s", "is", "n", "ni", "ns", "nis"]
-    bt = B.Batch(bd, "c08", gs, allopts, strict=True)
+    bt = B.Batch(bd, "c08", gs, allopts, strict=False)
     try:
         bt.generate().build()
+        # the rule-constant type in the emitted file vs the model's choice from the tree length
+        import re as _re
+        mlines, emitted = [], {}
+        for g in gs:
+            for o in allopts:
+                it = bt.items[(g["id"], o)]
+                r = it["resp"]
+                pth = os.path.join(bt.dir, "pkgs", it["pkg"], "parser.go")
+                if r.get("linked") and os.path.exists(pth):
+                    m_ = _re.search(r"^type pegRule (\w+)", open(pth, encoding="utf-8", errors="replace").read(), _re.M)
+                    tlen = len(P.parse_dump(r["linked"]))
+                    cid = "%s.%s" % (g["id"], o)
+                    emitted[cid] = (m_.group(1) if m_ else None, tlen, g, o)
+                    mlines.append("ruletype %s %d" % (cid, tlen))
+        rc_, out_, err_ = C.run([B.Model().exe], input="\n".join(mlines) + "\n", timeout=120)
+        for line in out_.split("\n"):
+            if line.startswith("ruletype "):
+                head, want = line.split(" :: ")
+                cid = head.split(" ")[1]
+                got, tlen, g, o = emitted[cid]
+                if got != want:
+                    problems.append(("[%s] the rule-constant type emitted is %s, the model chooses %s for a tree of %d nodes" % (g["id"], got, want, tlen),
+                                     {"grammar": g["text"][:2000], "stream": g["id"], "options": B.OPTSETS[o], "why": "pegRule type"}))
         for g in gs:
             for o in allopts:
                 it = bt.items[(g["id"], o)]
